@@ -346,6 +346,123 @@ def part_nesting(rep, arg):
     rep.sample({"nesting": Abs.grouped("FailedAvpAVP", [Abs.grouped("SubscriptionDataAVP", [leaves[0]])]).describe()})
 
 
+# -- Grouped AVPs built by a sequence of container operations ------------------------------------------------
+# "The data of a Grouped AVP is the concatenation of its members' encodings" however the member list came about:
+# every operation sequence up to a depth over a member alphabet in which one leaf's bytes also occur inside a
+# nested member and one leaf has an equal twin.
+
+def _group_letters():
+    a = Abs.of("ProxyHostAVP", "h", b"h")
+    b = Abs.of("ResultCodeAVP", 1, (1).to_bytes(4, "big"))
+    c = Abs.of("ErrorMessageAVP", "xyzzy", b"xyzzy")
+    nested = Abs.grouped("ProxyInfoAVP", [Abs.of("ProxyHostAVP", "h", b"h"), Abs.of("ProxyStateAVP", b"s", b"s")])
+    return {"a": a, "a2": Abs.of("ProxyHostAVP", "h", b"h"), "b": b, "c": c, "n": nested}
+
+
+def _group_ops(depth_left, size):
+    ops = [("append", x) for x in ("a", "a2", "b", "n")] + [("extend", ("n", "a")), ("extend", ("c", "b")),
+                                                             ("assign", ("b", "c")), ("assign", ("n", "a", "b")), ("cleanup",)]
+    for i in range(min(size, 3)):
+        ops.append(("pop", i))
+        ops.append(("setitem", i, "c"))
+        ops.append(("setitem", i, "n"))
+    return ops
+
+
+def part_grouped_ops(rep, arg):
+    import itertools as it
+    maxdepth, k, nk = arg
+    L = _group_letters()
+    n = 0
+    idx = 0
+
+    def run_seq(seq):
+        """-> (group object, model list of Abs) or None when an operation is not applicable"""
+        g = Abs.grouped("FailedAvpAVP", []).build()
+        model = []
+        for op in seq:
+            if op[0] == "append":
+                g.append(L[op[1]].build()); model.append(L[op[1]])
+            elif op[0] == "extend":
+                g.extend([L[x].build() for x in op[1]]); model += [L[x] for x in op[1]]
+            elif op[0] == "assign":
+                g.avps = [L[x].build() for x in op[1]]; model = [L[x] for x in op[1]]
+            elif op[0] == "cleanup":
+                g.cleanup(); model = []
+            elif op[0] == "pop":
+                if op[1] >= len(model):
+                    return None
+                target = g.avps[op[1]]
+                keys = [kk for kk, v in vars(g).items() if v is target]
+                if len(keys) != 1:
+                    return g, model, f"member {op[1]} has {len(keys)} names"
+                g.pop(keys[0]); del model[op[1]]
+            elif op[0] == "setitem":
+                if op[1] >= len(model):
+                    return None
+                g[op[1]] = L[op[2]].build(); model[op[1]] = L[op[2]]
+        return g, model, None
+
+    for depth in range(1, maxdepth + 1):
+        def expand(prefix, size):
+            if len(prefix) == depth:
+                yield prefix
+                return
+            for op in _group_ops(depth - len(prefix), size):
+                if op[0] in ("pop", "setitem") and op[1] >= size:
+                    continue
+                ns = size
+                if op[0] == "append": ns = size + 1
+                elif op[0] == "extend": ns = size + len(op[1])
+                elif op[0] == "assign": ns = len(op[1])
+                elif op[0] == "cleanup": ns = 0
+                elif op[0] == "pop": ns = size - 1
+                yield from expand(prefix + [op], ns)
+        for seq in expand([], 0):
+            idx += 1
+            if idx % nk != k:
+                continue
+            n += 1
+            wit = {"part": "grouped-ops", "ops": [list(o) for o in seq]}
+            shape = "+".join(o[0] for o in seq)
+            try:
+                res = run_seq(seq)
+            except BaseException as e:  # noqa
+                rep.violation(f"C01:grouped-ops:raises-{type(e).__name__}:{shape}", f"{seq}: {type(e).__name__}: {e}", wit)
+                continue
+            if res is None:
+                continue
+            g, model, naming = res
+            exp = Abs.grouped("FailedAvpAVP", model).expected()
+            try:
+                got = g.dump()
+                members = [m.dump() for m in g.avps]
+            except BaseException as e:  # noqa
+                rep.violation(f"C01:grouped-ops:dump-raises-{type(e).__name__}:{shape}", f"{seq}: {type(e).__name__}: {e}", wit)
+                continue
+            # which of two equal twins a pop by key removes is not an encoding matter: the member list is
+            # compared as a multiset, the data with the encoding of the members as the object lists them
+            if sorted(members) != sorted(m.expected() for m in model):
+                rep.violation(f"C01:grouped-ops:member-list:{shape}",
+                              f"after {seq} the member list is {[m.hex()[:24] for m in members]}, expected "
+                              f"{[m.expected().hex()[:24] for m in model]}", wit)
+            elif got != refcodec.enc_avp((279, 0x40, None, b"".join(members))):
+                exp = refcodec.enc_avp((279, 0x40, None, b"".join(members)))
+                rep.violation(f"C01:grouped-ops:data-not-concatenation:{shape}",
+                              f"after {seq} the Grouped AVP dumps {got.hex()}, the encoding of its members is {exp.hex()}", wit)
+            else:
+                # ... and inside a message
+                from bromelia.base import DiameterMessage, DiameterHeader
+                m = DiameterMessage(DiameterHeader(flags=0x80, command_code=316, application_id=16777251, hop_by_hop=5, end_to_end=6),
+                                    avps=[g])
+                want = refcodec.enc_msg((1, 0x80, 316, 16777251, 5, 6, [(279, 0x40, None, b"".join(members))]))
+                if m.dump() != want:
+                    rep.violation(f"C01:grouped-ops:message:{shape}", f"after {seq} the message holding the group dumps "
+                                  f"{m.dump().hex()[:96]}.., expected {want.hex()[:96]}..", wit)
+    rep.add(evaluations=n, distinct=n, grouped_operation_sequences=n)
+    rep.sample({"grouped_ops": [["append", "n"], ["append", "a"], ["pop", 1]]})
+
+
 def part_typed(rep, arg):
     """Typed command classes built with their default arguments where that is possible; the full
     argument space of the typed classes is C09's job, which re-uses the same reference encoder."""
@@ -359,7 +476,7 @@ def part_typed(rep, arg):
 def _shard(rep, arg):
     kind, payload = arg
     {"generic": part_generic, "classes": part_classes, "headers": part_headers,
-     "sequences": part_sequences, "nesting": part_nesting, "typed": part_typed}[kind](rep, payload)
+     "sequences": part_sequences, "nesting": part_nesting, "typed": part_typed, "grouped-ops": part_grouped_ops}[kind](rep, payload)
 
 
 def run(report, tier, seed):
@@ -381,6 +498,9 @@ def run(report, tier, seed):
         shards.append(("sequences", (4 if thorough else 3, k, nk)))
     shards.append(("nesting", (5 if thorough else 3,)))
     shards.append(("typed", None))
+    nk = 16 if thorough else 4
+    for k in range(nk):
+        shards.append(("grouped-ops", (4 if thorough else 3, k, nk)))
     core.run_shards(report, _shard, shards)
     # every class of the library must be in the frozen dictionary (additions are covered or flagged)
     from bromelia.base import DiameterAVP
@@ -423,5 +543,18 @@ def replay(w):
     if w["part"] == "typed":
         from checks import c09
         return c09.replay(w)
+    if w["part"] == "grouped-ops":
+        global _group_ops
+        seq = [tuple(tuple(x) if isinstance(x, list) else x for x in o) for o in w["ops"]]
+        saved = _group_ops
+        want = list(seq)
+        _group_ops = lambda d, size: [want[len(want) - d]] if d <= len(want) else []   # noqa: E731
+        try:
+            part_grouped_ops(rep, (len(seq), 0, 1))
+        finally:
+            _group_ops = saved
+        for v in rep.violations.values():
+            print(v.signature, v.what)
+        return bool(rep.violations)
     print(w)
     return True
